@@ -9,6 +9,7 @@ CONSTANTS MaxAtom = 2
  InitSlotsOnCopy = TRUE
  RestoreCacheOnAbort = TRUE
  FullFlushOnSpecialDelete = TRUE
+ PackMemoised = FALSE
  Elems <- SmallElems
  Orders <- SmallOrders
  Charges <- SmallCharges
